@@ -168,17 +168,45 @@ func tornWrites() {
 	mark := filepath.Join(devRoot, "MARK")
 	logPath := filepath.Join(tgen.Scratch(), "torn-strace.log")
 	self, _ := os.Executable()
-	cmd := exec.Command("strace", "-f", "-s", "10000000", "-xx", "-e", "trace=openat,write,close,rename,renameat,renameat2,unlink,unlinkat", "-o", logPath, self, "tornchild", file, srcB, mark)
-	out, err := cmd.CombinedOutput()
-	os.WriteFile(file, []byte(tgen.FileHeader+tornA), 0o644)
-	if err != nil || !strings.Contains(string(out), "TORN ok go=false text=true") {
-		// tracing is not possible here (no ptrace), or the edit was not handled as a text-only edit
-		run.Cov["text_file_write_protocol"] = "not recorded: " + strings.TrimSpace(firstLine(string(out))) + fmt.Sprint(" ", err)
-		return
+	// record (twice at most: a trace in which the calls of the runtime's threads are cut up beyond what the parser
+	// follows does not replay to the file the handler left; that is the recording's fault and is repeated once)
+	var ops []fsOp
+	var newTxt []byte
+	for attempt := 0; ; attempt++ {
+		os.Remove(txtPath)
+		cmd := exec.Command("strace", "-f", "-s", "10000000", "-xx", "-e", "trace=openat,write,close,rename,renameat,renameat2,unlink,unlinkat", "-o", logPath, self, "tornchild", file, srcB, mark)
+		out, err := cmd.CombinedOutput()
+		os.WriteFile(file, []byte(tgen.FileHeader+tornA), 0o644)
+		if err != nil || !strings.Contains(string(out), "TORN ok go=false text=true") {
+			// tracing is not possible here (no ptrace), or the edit was not handled as a text-only edit
+			run.Cov["text_file_write_protocol"] = "not recorded: " + strings.TrimSpace(firstLine(string(out))) + fmt.Sprint(" ", err)
+			return
+		}
+		newTxt, _ = os.ReadFile(txtPath)
+		logb, _ := os.ReadFile(logPath)
+		ops, _ = parseStrace(string(logb), devRoot, mark)
+		// does the recording replay to the file the handler left behind?
+		m := map[string]string{}
+		for _, op := range ops {
+			switch op.kind {
+			case "trunc":
+				m[op.path] = ""
+			case "write":
+				m[op.path] += op.data
+			case "rename":
+				m[op.to] = m[op.path]
+				delete(m, op.path)
+			case "unlink":
+				delete(m, op.path)
+			}
+		}
+		if m[txtPath] == string(newTxt) {
+			break
+		}
+		if attempt == 1 {
+			vlib.Fatal("torn: replaying the recorded operations does not give the text file the handler left behind (2 recordings)")
+		}
 	}
-	newTxt, _ := os.ReadFile(txtPath)
-	logb, _ := os.ReadFile(logPath)
-	ops, _ := parseStrace(string(logb), devRoot, mark)
 	// the old text: what the handler writes for version A
 	os.Remove(txtPath)
 	h := generatecmd.NewFSEventHandler(quiet, bt.Dir, true, nil, false, true, func(string, []byte) error { return nil }, false)
